@@ -13,6 +13,7 @@ from linear_operator.operators._linear_operator import IndexType, LinearOperator
 from linear_operator.operators.block_diag_linear_operator import BlockDiagLinearOperator
 from linear_operator.operators.dense_linear_operator import DenseLinearOperator
 from linear_operator.operators.triangular_linear_operator import TriangularLinearOperator
+from linear_operator.utils.broadcasting import _matmul_broadcast_shape
 from linear_operator.utils.memoize import cached
 
 
@@ -196,6 +197,9 @@ class DiagLinearOperator(TriangularLinearOperator):
         other: Union[Float[Tensor, "*batch2 N P"], Float[Tensor, "*batch2 N"], Float[LinearOperator, "*batch2 N P"]],
     ) -> Union[Float[Tensor, "... M P"], Float[Tensor, "... M"], Float[LinearOperator, "... M P"]]:
         if isinstance(other, Tensor):
+            if other.ndim == 0:
+                raise RuntimeError(f"Incompatible dimensions for matmul: {self.shape} and {other.shape}")
+            _matmul_broadcast_shape(self.shape, other.shape)  # raises if the shapes do not fit
             diag = self._diag if other.ndim == 1 else self._diag.unsqueeze(-1)
             return diag * other
 
